@@ -43,6 +43,10 @@ var c14Static = [][]string{
 	nil,
 	{"2001:db8::53"},
 	{"2001:db8::53", "2001:db8::54"},
+	// A static server that is also an address of the interface (the best-ranked one
+	// of the pool, and a middling one): the wildcard's choice must still come first.
+	{"2001:db8::53", "fd00::5"},
+	{"2001:db8::1", "fd00:0:0:1::a"},
 }
 
 type c14Case struct {
@@ -226,32 +230,32 @@ func TestVerifC14(t *testing.T) {
 			elig = append(elig, v)
 		}
 	}
-	c14Pool := elig
-	n := len(c14Pool)
+	eligPool := elig
+	n := len(eligPool)
 	for i := 0; i < n; i++ {
 		for j := 0; j < n; j++ {
-			a, b := c14Pool[i].IP(), c14Pool[j].IP()
+			a, b := eligPool[i].IP(), eligPool[j].IP()
 			r.Case(fmt.Sprintf("pair %d %d", i, j), i != j)
 			w1, w2 := betterRDNSS(a, b), betterRDNSS(b, a)
 			if i != j && w1 != w2 {
-				r.Violation("C14:not-antisymmetric", fmt.Sprintf("betterRDNSS(%s,%s)=%v but reversed=%v", c14Pool[i].Class, c14Pool[j].Class, w1.Address, w2.Address), nil)
+				r.Violation("C14:not-antisymmetric", fmt.Sprintf("betterRDNSS(%s,%s)=%v but reversed=%v", eligPool[i].Class, eligPool[j].Class, w1.Address, w2.Address), nil)
 			}
 			want := a
 			if c14Less(b, a) {
 				want = b
 			}
 			if i != j && w1 != want {
-				r.Violation(fmt.Sprintf("C14:pair-ranking:%s-vs-%s", c14Pool[i].Class, c14Pool[j].Class), fmt.Sprintf("betterRDNSS picks %v, ranking says %v", w1.Address, want.Address), nil)
+				r.Violation(fmt.Sprintf("C14:pair-ranking:%s-vs-%s", eligPool[i].Class, eligPool[j].Class), fmt.Sprintf("betterRDNSS picks %v, ranking says %v", w1.Address, want.Address), nil)
 			}
 			for k := 0; k < n; k++ {
-				c := c14Pool[k].IP()
+				c := eligPool[k].IP()
 				r.Case(fmt.Sprintf("triple %d %d %d", i, j, k), i != j && j != k && i != k)
 				if i == j || j == k || i == k {
 					continue
 				}
 				// a beats b and b beats c => a beats c.
 				if betterRDNSS(b, a) == a && betterRDNSS(c, b) == b && betterRDNSS(c, a) != a {
-					r.Violation("C14:not-transitive", fmt.Sprintf("%s > %s > %s but not %s > %s", c14Pool[i].Class, c14Pool[j].Class, c14Pool[k].Class, c14Pool[i].Class, c14Pool[k].Class), nil)
+					r.Violation("C14:not-transitive", fmt.Sprintf("%s > %s > %s but not %s > %s", eligPool[i].Class, eligPool[j].Class, eligPool[k].Class, eligPool[i].Class, eligPool[k].Class), nil)
 				}
 			}
 		}
